@@ -125,13 +125,15 @@ def parse_mir(text, crate):
             i += 1
             continue
         m1 = _hdr_fn.match(l) if l.startswith('fn ') else None
+        m2 = None
         if m1 is None:
-            m = _hdr_const_lit.match(l)
-            if m:
-                consts.append((m.group(1), m.group(2), m.group(3), i, crate))
+            hd = _split_const_header(l)
+            if hd and hd[2] is not None:
+                consts.append((hd[0], hd[1], hd[2], i, crate))
                 i += 1
                 continue
-        m2 = _hdr_const_body.match(l) if m1 is None else None
+            if hd:
+                m2 = _M2(hd[0], hd[1])
         if m1 or m2:
             j = i + 1
             body = []
@@ -160,6 +162,47 @@ def parse_mir(text, crate):
             continue
         i += 1
     return fns, consts
+
+
+class _M2:
+    def __init__(self, name, ty):
+        self.name, self.ty = name, ty
+
+    def group(self, k):
+        return self.name if k == 1 else self.ty
+
+
+def _split_const_header(l):
+    """`const NAME: TY = const V;` / `const NAME: TY = {` / `static NAME: TY = {` -> (name, ty, literal|None)"""
+    if not (l.endswith(' = {') or (l.endswith(';') and ' = const ' in l)):
+        return None
+    body = l
+    for pre in ('const ', 'static mut ', 'static '):
+        if body.startswith(pre):
+            body = body[len(pre):]
+            break
+    depth = 0
+    cut = None
+    for idx, ch in enumerate(body):
+        if ch in '<([':
+            depth += 1
+        elif ch in ')]':
+            depth -= 1
+        elif ch == '>' and body[idx - 1] != '-':
+            depth -= 1
+        elif ch == ':' and depth == 0 and body.startswith(': ', idx) and not body.startswith('::', idx) and (idx == 0 or body[idx - 1] != ':'):
+            cut = idx
+            break
+    if cut is None:
+        return None
+    name = body[:cut]
+    rest = body[cut + 2:]
+    if rest.endswith(' = {'):
+        return name, rest[:-4], None
+    k = rest.rfind(' = const ')
+    if k < 0:
+        return None
+    return name, rest[:k], rest[k + 9:-1]
 
 
 _impl_name = re.compile(r'^(.*?)<impl at (.+?):(\d+):\d+: \d+:\d+>::(.+)$')
@@ -206,6 +249,7 @@ class Program:
         self.src_cache = {}
         self.enum_variants = None
         self.crate_dirs = {}
+        self.closures = {}
 
     def add_dump(self, crate, text, crate_dir):
         self.texts[crate] = text
@@ -232,6 +276,10 @@ class Program:
     def _index_fn(self, f):
         self.fns.append(f)
         self.by_name.setdefault(f.name, []).append(f)
+        if '{closure#' in f.name and f.params:
+            cm = re.search(r'\{closure@[^}]*\}', f.params[0][1])
+            if cm:
+                self.closures[(f.crate, cm.group(0))] = f
         m = _impl_name.match(f.name)
         if m:
             modpath, path, ln, rest = m.group(1), m.group(2), int(m.group(3)), m.group(4)
@@ -306,6 +354,19 @@ class Program:
                     if f.impl and f.impl[1] == tyl and f.impl[3] == m2 + '::' + meth:
                         return f
             return None
+        if len(segs) >= 2 and segs[-2][:1].isupper():
+            tyl = segs[-2]
+            mc = [f for f in self.by_last.get(meth, []) if f.impl and f.impl[1] == tyl and f.impl[3] == meth]
+            if len(mc) > 1:
+                inh = [f for f in mc if f.impl[0] is None]
+                if inh:
+                    mc = inh
+            mc = self._prefer(mc, pref_crate, '::'.join(segs[:-1]))
+            if mc:
+                return mc[0]
+            # a method of a type that is not in the dumps: not a repo function
+            if not any(f.impl is None and (f.name == g2 or f.name.endswith('::' + g2)) for f in self.by_last.get(meth, [])):
+                return None
         # free function: exact or suffix match on the dump name
         cands = []
         for f in self.by_last.get(meth, []):
